@@ -34,7 +34,7 @@ STUBS = [
     'code, wrong payload type); operations racing with a client disconnect may raise WebSocketDisconnected or succeed',
 ]
 OUTSIDE = ['msgpack binary media (not installed)', 'scripts longer than 4 operations', 'custom WebSocket error handlers beyond one']
-BUDGET = {'quick': 300, 'thorough': 2400}
+BUDGET = {'quick': 300, 'thorough': 900}
 
 OPS = {0: 'accept', 1: 'close', 2: 'send_text', 3: 'receive_text', 4: 'raise HTTPNotFound', 5: 'raise ValueError', 6: 'close(code)',
        7: "accept(subprotocol)", 8: 'send_data', 9: 'receive_data', 10: 'send_media', 11: 'receive_media', 12: 'yield',
